@@ -77,6 +77,13 @@ CLAIMS["C19"] = ("field-write inventory of the four sibling updaters, provenance
     "write_all in the printers is followed by printed += len(the same bytes). Does not decide the summary's text or per-reader statistics.",
     "DESIGN.md §3 C19")
 
+CLAIMS["C10"] = ("MIR dataflow on EvtxReader::analyze/next: provenance of the index key components and stored value, resolved container type and pop operation, loop-exit classification of the record scan, window-verdict arms",
+    "Static necessary-condition check of the event-log reader: BTreeMap index keyed by (record timestamp, enumerate() index directly over "
+    "records()), pop_first order, stored Evtx built from the keyed record with dt = that timestamp, only InRange records indexed, the record "
+    "loop left only at iterator exhaustion (records are stored out of order), compressed input parsed from the owned temporary extraction. "
+    "Does not decide the evtx crate's enumeration or rendering.",
+    "DESIGN.md §3 C10")
+
 NA_REASON = {}
 
 checks = []
